@@ -11,8 +11,9 @@ from ipaddress import ip_address, ip_network
 from select import select
 
 import xfrm
+from configuration import ConfigurationNotFound
 from ikesa import IkeSa
-from message import (Message, TrafficSelector)
+from message import (IkeSaError, Message, TrafficSelector)
 
 __author__ = 'Alejandro Perez-Mendez <alejandro.perez.mendez@gmail.com>'
 
@@ -44,11 +45,21 @@ class IkeSaController:
         return None
 
     def dispatch_message(self, data, my_addr, peer_addr):
-        header = Message.parse(data, header_only=True)
+        try:
+            header = Message.parse(data, header_only=True)
+        except IkeSaError as ex:
+            logging.warning(f'Received a datagram that is not an IKE message from {peer_addr}: {ex}. Omitting.')
+            return None
+        new_ike_sa = False
         # if IKE_SA_INIT request, then a new IkeSa must be created
         if header.exchange_type == Message.Exchange.IKE_SA_INIT and header.is_request:
             # look for matching configuration
-            ike_conf = self.configuration.get_ike_configuration(ip_address(my_addr), ip_address(peer_addr))
+            try:
+                ike_conf = self.configuration.get_ike_configuration(ip_address(my_addr), ip_address(peer_addr))
+            except ConfigurationNotFound as ex:
+                logging.warning(f'{ex}. Omitting.')
+                return None
+            new_ike_sa = True
             ike_sa = IkeSa(is_initiator=False, peer_spi=header.spi_i, configuration=ike_conf,
                            my_addr=ip_address(my_addr), peer_addr=ip_address(peer_addr))
             self.ike_sas.append(ike_sa)
@@ -66,7 +77,14 @@ class IkeSaController:
                 return None
 
         # generate the reply (if any)
-        reply = ike_sa.process_message(data)
+        try:
+            reply = ike_sa.process_message(data)
+        except IkeSaError as ex:
+            logging.warning(f'Could not parse the message received for IKE_SA={ike_sa}: {ex}. Omitting.')
+            # an IKE_SA created for a request that could not even be parsed is of no use
+            if new_ike_sa:
+                self.ike_sas.remove(ike_sa)
+            return None
 
         # if rekeyed, add the new IkeSa
         if (ike_sa.state in (IkeSa.State.REKEYED, IkeSa.State.DEL_AFTER_REKEY_IKE_SA_REQ_SENT)
@@ -203,6 +221,9 @@ class IkeSaController:
                 logging.error(f'Problem sending message: {ex}')
             except KeyError as ex:
                 logging.error(f'Could not find socket with the appropriate source address: {str(ex)}')
+            except Exception as ex:
+                # nothing that a peer, the kernel or the network does should stop the daemon
+                logging.error(f'Unexpected error while processing an event: {ex}')
 
     def close(self):
         xfrm.Xfrm.flush_policies()
